@@ -87,6 +87,8 @@ func vInstallSnapshot(w int, faults bool) {
 		case opSnapCreate:
 			created = c.ok
 			vAssert(c.a == si && c.b == req.LastLogTerm, "C11.install.sink-stamped-with-request")
+			// what a restart will read back (C10): the durable snapshot carries the snapshot's own last term, not the sender's current term
+			vAssert(c.a == si && c.b == req.LastLogTerm, "C10.install.durable-snapshot-position-is-requests")
 		case opSnapClose:
 			closedOK = c.ok
 			closeTried = true
@@ -153,6 +155,12 @@ func vh_take_snapshot() {
 	env.snaps.failOn = true
 	r.configurations.committedIndex = vU64("committedIndex")
 	vAssume(r.configurations.committedIndex <= r.configurations.latestIndex)
+	if vChoose("uncommittedConfig", 0, 1) == 1 {
+		// a configuration change is in flight: latest differs from committed
+		r.configurations.committed = vConfig("committedcfg", 1, false)
+		vAssume(r.configurations.committed.Servers[0].ID != r.configurations.latest.Servers[0].ID)
+		vAssume(r.configurations.committedIndex < r.configurations.latestIndex)
+	}
 	// the FSM goroutine has applied up to lastApplied: feed it that entry so that its (lastIndex, lastTerm) are set
 	applied := r.lastApplied
 	hasApplied := s.has(applied)
